@@ -96,6 +96,7 @@ let note tag args =
   | 113 -> "wflag:" ^ g 0
   | 114 -> "xwake:" ^ g 0
   | 115 -> ">start:" ^ g 0
+  | 116 -> "ystep:" ^ g 0
   | t -> Printf.sprintf "note%d:%s" t (String.concat "," a)
 
 let show = function
